@@ -332,7 +332,30 @@ pub fn gen_setup(rng: &mut Rng) -> Setup {
     Setup { lex, chardef, unk, feature_def, rewrite_def, corpus, user, k, slash, rows }
 }
 
+/// Training in a helper thread with a wall-clock limit: the CRF optimiser of the dependency (L-BFGS with a backtracking
+/// line search) does not terminate on some degenerate set-ups (seen in a thorough run: set-up 994 of seed 1 spun for 90
+/// minutes).  Training itself is outside every property ("for which training succeeds"): such a set-up is skipped.  The
+/// abandoned thread ends with the process.
 pub fn train(s: &Setup, reg: f64, iters: u64) -> Option<Model> {
+    let s2 = Setup {
+        lex: s.lex.clone(), chardef: s.chardef.clone(), unk: s.unk.clone(), feature_def: s.feature_def.clone(),
+        rewrite_def: s.rewrite_def.clone(), corpus: s.corpus.clone(), user: s.user.clone(), k: s.k, slash: s.slash, rows: vec![],
+    };
+    let (tx, rx) = std::sync::mpsc::channel();
+    std::thread::spawn(move || {
+        let _ = tx.send(train_unlimited(&s2, reg, iters));
+    });
+    let limit: u64 = std::env::var("VERIF_TRAIN_LIMIT_S").ok().and_then(|x| x.parse().ok()).unwrap_or(60);
+    match rx.recv_timeout(std::time::Duration::from_secs(limit)) {
+        Ok(m) => m,
+        Err(_) => {
+            eprintln!("training exceeded {limit} s: set-up skipped");
+            None
+        }
+    }
+}
+
+fn train_unlimited(s: &Setup, reg: f64, iters: u64) -> Option<Model> {
     guarded(|| {
         let config = TrainerConfig::from_readers(
             s.lex.as_bytes(),
